@@ -748,5 +748,75 @@ theorem minOf_bytes_least (x : Val) (xs : List Val) (h : ∀ v ∈ x :: xs, ∃ 
 example : minOf [.str "b".toList, .str "ab".toList, .str "a".toList, .str "a".toList] = .str "a".toList := by rfl
 
 
+/-! ### max is above every argument in every totally preordered class (strings and bytes included) -/
+
+theorem foldl_max_oge {S : Val → Prop} (H : OrdOK S) (hne : ∀ a, S a → a.isErr = false)
+    (hsym : ∀ a b, S a → S b → ord a b = .ok (some .eq) → ord b a = .ok (some .eq)) :
+    ∀ (xs : List Val) (cur : Val), S cur → (∀ v ∈ xs, S v) →
+      let r := xs.foldl (fun cur v => match rel .gt v cur with | .bool true => v | _ => cur) cur
+      S r ∧ OLe cur r ∧ ∀ w ∈ xs, OLe w r
+  | [], cur, hc, _ => by
+    obtain ⟨o, ho⟩ := H.total cur cur hc hc
+    refine ⟨hc, ?_, by simp⟩
+    cases o
+    · exact Or.inl ho
+    · exact Or.inr ho
+    · exact H.conv cur cur hc hc ho
+  | v :: vs, cur, hc, hs => by
+    have hv : S v := hs v (by simp)
+    have hvs : ∀ w ∈ vs, S w := fun w hw => hs w (by simp [hw])
+    obtain ⟨o, ho⟩ := H.total v cur hv hc
+    simp only [List.foldl_cons, rel_of_ord .gt v cur _ (hne v hv) (hne cur hc) ho, holds_gt]
+    cases o
+    · simp only [reduceCtorEq, decide_false]
+      obtain ⟨h1, h2, h3⟩ := foldl_max_oge H hne hsym vs cur hc hvs
+      refine ⟨h1, h2, ?_⟩
+      intro w hw
+      rcases List.mem_cons.mp hw with rfl | hw
+      · exact H.trans _ cur _ hv hc h1 (Or.inl ho) h2
+      · exact h3 w hw
+    · simp only [reduceCtorEq, decide_false]
+      obtain ⟨h1, h2, h3⟩ := foldl_max_oge H hne hsym vs cur hc hvs
+      refine ⟨h1, h2, ?_⟩
+      intro w hw
+      rcases List.mem_cons.mp hw with rfl | hw
+      · exact H.trans _ cur _ hv hc h1 (Or.inr ho) h2
+      · exact h3 w hw
+    · simp only [decide_true]
+      obtain ⟨h1, h2, h3⟩ := foldl_max_oge H hne hsym vs v hv hvs
+      refine ⟨h1, H.trans cur v _ hc hv h1 (H.conv _ _ hv hc ho) h2, ?_⟩
+      intro w hw
+      rcases List.mem_cons.mp hw with rfl | hw
+      · exact h2
+      · exact h3 w hw
+
+/-- `max` of any number of arguments of one totally preordered class: every argument is below the result. -/
+theorem maxOf_oge {S : Val → Prop} (H : OrdOK S) (hne : ∀ a, S a → a.isErr = false)
+    (hsym : ∀ a b, S a → S b → ord a b = .ok (some .eq) → ord b a = .ok (some .eq))
+    (x : Val) (xs : List Val) (h : ∀ v ∈ x :: xs, S v) :
+    ∀ w ∈ x :: xs, OLe w (maxOf (x :: xs)) := by
+  obtain ⟨_, h2, h3⟩ := foldl_max_oge H hne hsym xs x (h x (by simp)) (fun v hv => h v (by simp [hv]))
+  intro w hw
+  rcases List.mem_cons.mp hw with rfl | hw
+  · exact h2
+  · exact h3 w hw
+
+theorem maxOf_str_greatest (x : Val) (xs : List Val) (h : ∀ v ∈ x :: xs, ∃ s, v = .str s) :
+    ∀ w ∈ x :: xs, OLe w (maxOf (x :: xs)) :=
+  maxOf_oge ordOK_str (by rintro a ⟨s, rfl⟩; rfl)
+    (by rintro a b ⟨s, rfl⟩ ⟨t, rfl⟩ hab
+        simp only [ord, widen, OrdRes.ok.injEq, Option.some.injEq] at hab ⊢
+        exact cmpBy_eq_symm _ _ _ hab) x xs h
+
+theorem maxOf_bytes_greatest (x : Val) (xs : List Val) (h : ∀ v ∈ x :: xs, ∃ s, v = .bytes s) :
+    ∀ w ∈ x :: xs, OLe w (maxOf (x :: xs)) :=
+  maxOf_oge ordOK_bytes (by rintro a ⟨s, rfl⟩; rfl)
+    (by rintro a b ⟨s, rfl⟩ ⟨t, rfl⟩ hab
+        simp only [ord, widen, OrdRes.ok.injEq, Option.some.injEq] at hab ⊢
+        exact cmpBy_eq_symm _ _ _ hab) x xs h
+
+example : maxOf [.str "b".toList, .str "ba".toList, .str "a".toList, .str "ba".toList] = .str "ba".toList := by rfl
+
+
 end C04
 end Rscel
